@@ -348,8 +348,12 @@ class PersistenceImager(TransformerMixin):
         self._pixel_size = pixel_size
         self._birth_range = birth_range
         self._pers_range = pers_range
-        self._width = birth_range[1] - birth_range[0]
-        self._height = pers_range[1] - pers_range[0]
+        self._width = (
+            int(np.ceil((birth_range[1] - birth_range[0]) / pixel_size)) * pixel_size
+        )
+        self._height = (
+            int(np.ceil((pers_range[1] - pers_range[0]) / pixel_size)) * pixel_size
+        )
         self._resolution = (
             int(self._width / self._pixel_size),
             int(self._height / self._pixel_size),
